@@ -4,6 +4,7 @@ go 1.26.8
 
 require (
 	github.com/emersion/go-message v0.18.2
+	github.com/emersion/go-milter v0.4.1
 	github.com/emersion/go-msgauth v0.6.8
 	github.com/emersion/go-sasl v0.0.0-20241020182733-b788ff22d5a6
 	github.com/emersion/go-smtp v0.21.3
@@ -22,7 +23,6 @@ require (
 	github.com/c0va23/go-proxyprotocol v0.9.1 // indirect
 	github.com/cespare/xxhash/v2 v2.3.0 // indirect
 	github.com/emersion/go-imap v1.2.2-0.20220928192137-6fac715be9cf // indirect
-	github.com/emersion/go-milter v0.4.1 // indirect
 	github.com/google/uuid v1.6.0 // indirect
 	github.com/lib/pq v1.10.9 // indirect
 	github.com/mattn/go-sqlite3 v1.14.24 // indirect
